@@ -161,10 +161,15 @@ func runC04Expiry(c *Ctx, seed uint64) {
 // judgeStoredSecrets opens a copy of the machine's database under wrong passwords (must fail) and the
 // right one (must work).
 func judgeStoredSecrets(c *Ctx, w *world.World, nd *world.Node, r *sched.Rng, wit map[string]interface{}) {
-	copyDir := filepath.Join(w.Dir, fmt.Sprintf("pwcopy_x%d_%d", nd.Idx, r.Intn(1<<30)), "db")
+	judgeSecretsIn(c, w.Dir, nd.ColdDir, fmt.Sprintf("machine %d", nd.Idx), r, wit)
+}
+
+// judgeSecretsIn: srcDB is a machine's LevelDB directory (possibly still open elsewhere).
+func judgeSecretsIn(c *Ctx, workDir, srcDB, label string, r *sched.Rng, wit map[string]interface{}) {
+	copyDir := filepath.Join(workDir, fmt.Sprintf("pwcopy_x_%d", r.Intn(1<<30)), "db")
 	_ = os.MkdirAll(filepath.Dir(copyDir), 0o755)
-	// LevelDB keeps a lock on the live directory: the copy is taken with the machine open, like a thief would
-	if err := world.CopyDir(nd.ColdDir, copyDir); err != nil {
+	// the copy is taken the way a thief would take it: the files as they are
+	if err := world.CopyDir(srcDB, copyDir); err != nil {
 		c.Inconclusive("copy: %v", err)
 		return
 	}
@@ -176,22 +181,28 @@ func judgeStoredSecrets(c *Ctx, w *world.World, nd *world.Node, r *sched.Rng, wi
 	}
 	tmp := &world.Node{Cold: am}
 	defer tmp.CloseHandles()
-	for k := 0; k < 10; k++ {
-		pw := fmt.Sprintf("%s%x", []string{"", "x", world.Password[:len(world.Password)-1], world.Password + " "}[k%4], r.Bytes(k%5))
-		if pw == world.Password {
-			continue
+	type pw struct {
+		label string
+		key   []byte
+	}
+	pws := []pw{{"nil", nil}, {"empty", []byte{}}}
+	for _, l := range []int{1, 8, len(world.Password), 32} {
+		pws = append(pws, pw{fmt.Sprintf("%d zero bytes", l), make([]byte, l)})
+	}
+	for k := 1; k < 8; k++ {
+		s := fmt.Sprintf("%s%x", []string{"", "x", world.Password[:len(world.Password)-1], world.Password + " "}[k%4], r.Bytes(k%5))
+		if s != world.Password {
+			pws = append(pws, pw{fmt.Sprintf("%q", s), []byte(s)})
 		}
-		if k == 0 {
-			am.SetEncryptionKey(nil)
-		} else {
-			am.SetEncryptionKey([]byte(pw))
-		}
+	}
+	for _, p := range pws {
+		am.SetEncryptionKey(p.key)
 		c.Eval(1)
 		if err := am.LoadKeysFromDB(); err == nil {
-			c.Violate("C04/keys-load-with-wrong-password", fmt.Sprintf("machine %d password %q", nd.Idx, pw), wit)
+			c.Violate("C04/keys-load-with-wrong-password", fmt.Sprintf("%s password %s", label, p.label), wit)
 		}
 		if krs, err := am.GetBLSKeyrings(); err == nil && len(krs) > 0 {
-			c.Violate("C04/keyrings-load-with-wrong-password", fmt.Sprintf("machine %d password %q", nd.Idx, pw), wit)
+			c.Violate("C04/keyrings-load-with-wrong-password", fmt.Sprintf("%s password %s", label, p.label), wit)
 		}
 		c.Add("wrong_password_attempts", 1)
 	}
